@@ -18,7 +18,9 @@ RLIMIT = 150
 H = u_stack.H
 R = u_table.R
 
-REWRITES = [rw for rw in u_table.REWRITES if not (rw.only and all(o.startswith('TreeBuilder::step__') for o in rw.only))] + [
+REWRITES = [
+    Rewrite('R32-vecmacro', r'attrs: vec!\[\],', 'attrs: no_attrs(),', only=('TreeBuilder::step__in_body',), min_count=1),
+] + [rw for rw in u_table.REWRITES if not (rw.only and all(o.startswith('TreeBuilder::step__') for o in rw.only))] + [
     Rewrite('S-fragment-close', r'\}\s*\Z', '} }', only=('TreeBuilder::step__in_body',)),
     # R38: Option<Ref<Handle>> glue
     Rewrite('R38-refmap', r'self\.body_elem\(\)\.as_deref\(\)\.cloned\(\)', 'opt_cloned(self.body_elem())', min_count=1),
@@ -31,6 +33,10 @@ REWRITES = [rw for rw in u_table.REWRITES if not (rw.only and all(o.startswith('
     Rewrite('R39-localset', r'declare_tag_set!\(close_defn = "dd" "dt"\);', '', min_count=1),
     Rewrite('R39-localset', r'declare_tag_set!\(extra_special = \[special_tag\] - "address" "div" "p"\);', '', min_count=1),
     Rewrite('R11-byvalue', r'name\.local\.clone\(\)', 'name.local', only=('TreeBuilder::step__in_body',)),
+    # R34: the guard of `Some(ref node) if G => { BODY }, _ => {},` is moved into the arm (`Some(ref node) => { if G { BODY } }`): Verus loses
+    #      track of `&mut self` inside a guarded arm; same meaning because the only arm that follows does nothing
+    Rewrite('R34-guard-into-arm', r'Some\(ref node\)\s*if (self\.open_elems\.borrow\(\)\.len\(\) != 1\s*&& !self\.in_html_elem_named\(local_name!\("template"\)\)) =>\s*\{(\s*self\.frameset_ok\.set\(false\);\s*self\.sink\.add_attrs_if_missing\(node, tag\.attrs\))\s*\},',
+            r'Some(ref node) => { if \1 {\2 } },', only=('TreeBuilder::step__in_body',), min_count=1),
 ]
 
 
@@ -46,8 +52,7 @@ BASE = [q for q in (_assume(p) for p in u_table.PARTS[:-1]) if q is not None]
 PARTS = BASE + [
     Prelude('body.spec.rs'),
     Fragment(R, 'step', 'TreeBuilder', r'InsertionMode::InBody => match token \{',
-             'fn step__in_body(&mut self, token: Token) -> ProcessResult { match token', 'step__in_body', wrap='impl TreeBuilder',
-             attrs='#[verifier::loop_isolation(false)]'),
+             'fn step__in_body(&mut self, token: Token) -> ProcessResult { match token', 'step__in_body', wrap='impl TreeBuilder'),
     Raw('} // verus!\nfn main() {}'),
 ]
 DROPS = u_table.DROPS
